@@ -135,6 +135,16 @@ partial def stepOp (op out : List String) : Unit × String :=
   | ["mhead", _, h] => match hexNats h with
     | some bs => ((), judgeLoadLineSkip (if jsonSpaceOnly bs then .manifest else .garbage) out)
     | none => ((), "reject bad-op")
+  | "arcins" :: _ => ((), judgeLoadLine .archive out)
+  | ["uins", mode, pre, _, _, _] =>
+    match parseUnpackObs out with
+    | some o =>
+      let c : UnpackCase := { staged := mode.startsWith "staged", force := mode.endsWith "force", preFull := pre = "full", explicit := [] }
+      if o.ok then ((), s!"reject tampered-envelope-accepted api={mode} new={o.newFiles}")
+      else match judgeUnpack c o with
+        | none => ((), "ok")
+        | some cls => ((), s!"reject {cls} api={mode} new={o.newFiles}")
+    | none => ((), "reject bad-output " ++ " ".intercalate out)
   | ["umtail", mode, pre, h] =>
     match hexNats h, parseUnpackObs out with
     | some bs, some o =>
